@@ -45,6 +45,34 @@ var explicitTypes = []string{"uint0", "uint7", "uint8", "uint256", "uint264", "u
 	"uint256[0x10]", "uint256[1_0]", "uint65544", "int65792", "uint4294967304", "uint18446744073709551624", "bytes65537", "bytes65568", "bytes4294967297", "fixed128x65554", "ufixed65664x18", "fixed4294967424x18",
 	"uint256[4294967297]", "uint256[18446744073709551617]", "", "[", "[]", "256", "x", "unknown", "ui", "uinté8", "uint８", "uint²", "tüple", "uint256[١]", "\x00", "uint256\n"}
 
+// validateEverywhere: ABI.Validate / Entry.Validate must give the parser's verdict wherever the parameter sits —
+// in the inputs or the outputs of an entry of any type (also an omitted type). Returns "" when they all agree.
+func validateEverywhere(pj any, wantOK bool) string {
+	for _, typ := range []abi.EntryType{abi.Function, abi.Event, abi.Error, abi.Constructor, ""} {
+		for _, slot := range []string{"inputs", "outputs"} {
+			e := &abi.Entry{Type: typ, Name: "f"}
+			if slot == "inputs" {
+				e.Inputs = abi.ParameterArray{paramFromJSON(pj)}
+			} else {
+				e.Outputs = abi.ParameterArray{paramFromJSON(pj)}
+			}
+			if (abi.ABI{e}.Validate() == nil) != wantOK {
+				return "validate-disagrees:ABI.Validate:" + string(typ) + ":" + slot
+			}
+			e2 := &abi.Entry{Type: typ, Name: "f"}
+			if slot == "inputs" {
+				e2.Inputs = abi.ParameterArray{paramFromJSON(pj)}
+			} else {
+				e2.Outputs = abi.ParameterArray{paramFromJSON(pj)}
+			}
+			if (e2.Validate() == nil) != wantOK {
+				return "validate-disagrees:Entry.Validate:" + string(typ) + ":" + slot
+			}
+		}
+	}
+	return ""
+}
+
 func init() {
 	register(&Suite{
 		Prop: "C13",
@@ -204,13 +232,15 @@ func init() {
 			p := paramFromJSON(req["param"])
 			tc, err := p.TypeComponentTreeCtx(context.Background())
 			if err != nil {
+				if d := validateEverywhere(req["param"], false); d != "" {
+					return d
+				}
 				return "err"
 			}
 			sig := tc.String()
-			// via the ABI-level Validate entry point as well
-			a := abi.ABI{&abi.Entry{Type: abi.Function, Name: "f", Inputs: abi.ParameterArray{p}}}
-			if verr := a.Validate(); verr != nil {
-				return "validate-disagrees"
+			// via the ABI-level Validate entry point as well: every entry type, as an input and as an output
+			if d := validateEverywhere(req["param"], true); d != "" {
+				return d
 			}
 			return ok(sig)
 		},
